@@ -4,7 +4,7 @@ import sys
 pid = sys.argv[1]
 wave = sys.argv[2] if len(sys.argv) > 2 else "1"
 wt = f"/tmp/wt/{pid}" if wave == "1" else f"/tmp/wt{wave}/{pid}"
-prop = open(f"/tmp/wt/prop_{pid}.txt").read()
+prop = open(f"/tmp/wt/prop_{pid}.txt").read()  # property text only
 print(f"""You are working alone in a scratch git worktree of the Python library mdominijanni/inferno
 (a spiking-neural-network simulation library on PyTorch) at {wt}. Work ONLY inside {wt}.
 Do not read, list or modify anything under /verif or /repo, and do not look for other people's checks
